@@ -31,6 +31,7 @@ def jobs(tier):
     js += [('spec', lo, lo + step, 1 if tier == 'quick' else 2) for lo in range(0, 652, step)]
     # the Markdown renderer's token set (blank lines and link definitions are tokens of their own there): one-line A x all short B
     js += [('md', i) for i in range(len(L))]
+    js += [('repeat', i) for i in range(len(REPEAT_UNITS))]
     if tier == 'quick':
         js += [('f2', 'LX', i, j, 3) for i in range(len(LX)) for j in range(len(LX))]
     else:
@@ -62,6 +63,11 @@ def _dump_val(v, Token):
     return repr(v)
 
 
+# A = one unit repeated n times and a closing paragraph (a counter that leaks once per unit would show at its threshold)
+REPEAT_UNITS = [['-', ''], ['- a', ''], ['> q', ''], ['>', ''], ['```', 'c', '```', ''], ['# h', ''], ['<!-- c -->', ''], ['| a |', '|---|', ''],
+                ['[l]', ''], ['1.', ''], ['- - x', ''], ['***', ''], ['    c', '']]
+REPEAT_COUNTS = [31, 32, 33, 63, 64, 65, 99, 100, 101, 128, 255, 256, 257]
+REPEAT_B = [['- one'], ['> q'], ['# h'], ['```', 'c', '```'], ['- a', '  - b', '    - c'], ['foo', '==='], ['| a |', '|---|'], ['1. x']]
 TOKEN_SET = ['Html']
 _SEP = {}
 
@@ -171,6 +177,14 @@ def run_job(job):
             for other in oneA:
                 judge(r, other, S)
         r.sample(dict(space='spec corpus as A and as B', examples=[lo + 1, hi]), 1)
+        return r
+    if job[0] == 'repeat':
+        unit = REPEAT_UNITS[job[1]]
+        for n in REPEAT_COUNTS:
+            A = unit * n + ['closing paragraph']
+            for B in REPEAT_B:
+                judge(r, A, B)
+        r.sample(dict(space='repeated unit', unit=unit, counts=REPEAT_COUNTS), 1)
         return r
     if job[0] == 'md':
         TOKEN_SET[0] = 'Markdown'
